@@ -64,7 +64,7 @@ def report(c, res, deaths, items):
                     raise vf.FrameworkError("disagreement on layout %s not reproduced" % sc)
             what = "library digest differs from SHA-256 over the specification's ranges" if not ev.get("digest_equal") else \
                 "byte flip: %s" % (ev.get("flip_bad") or [None])[0]
-            c.report(key, what, {"case": case, "event": ev})
+            c.report(key, what, dict({"case": case, "event": ev}, **c.rp("pe", items[sc])))
     for sc, d in deaths.items():
         c.report("death:%s" % d["kind"], "process died hashing an image", {"case": json.loads(items[sc]), "death": d})
 
